@@ -74,8 +74,8 @@ pub fn balance(u: &mut U, t: &Address, who: &Address) -> i128 {
 pub fn set_probe_fail(u: &mut U, t: &Tok, fail: bool) {
     if t.kind == TokKind::Probe {
         let t = t.clone();
-        // refusals alternate between a trap and one of the token's own contract error codes
-        let kind = (u.calls % 2) as u32;
+        // refusals alternate between a trap, one of the token's own contract error codes, and returning false without moving anything
+        let kind = (u.calls % 3) as u32;
         u.setup(move |env| {
             let c = ProbeTokenClient::new(env, &t.addr);
             c.set_fail(&fail);
